@@ -608,6 +608,22 @@ theorem g2_unlinkOneshot (st : St) (a : Nat) : G2 st (unlinkOneshot st a) := by
           · rw [getW_setListOf]
           · rw [getW_setListOf]; exact id
 
+theorem g2_unlinkOneshotSaved (st : St) (a : Nat) (t : WType) : G2 st (unlinkOneshotSaved st a t) := by
+  unfold unlinkOneshotSaved
+  split
+  · exact G2.refl _
+  · rename_i hty
+    have hns : t ≠ .signal := by
+      intro h; apply hty; simp [h]
+    split
+    · exact g2_fail _ _
+    · split
+      · exact G2.refl _
+      · refine ((g2_setListOf_ne st _ _ hns).trans (g2_setW _ a _ ?_ ?_ ?_)).trans (g2_free _ a)
+        · rw [getW_setListOf]
+        · rw [getW_setListOf]
+        · rw [getW_setListOf]; exact id
+
 theorem step_fireIf (st : St) (c : Prop) [Decidable c] (k : Int) (flags : Nat) (info : Info) :
     SigStep st (if c then fireUser st k flags info else st) := by
   split
@@ -624,7 +640,9 @@ theorem step_invokeWatch (st : St) (a : Nat) (flags : Nat) (info : Info) : SigSt
     · exact (g2_fail _ _).step
     · split
       · exact hf
-      · exact hf.trans (g2_unlinkOneshot _ a).step
+      · split
+        · exact hf.trans (g2_unlinkOneshotSaved _ a _).step
+        · exact hf.trans (g2_unlinkOneshot _ a).step
 
 theorem step_procStep (st : St) (a : Nat) : SigStep st (procStep st a) := by
   unfold procStep
